@@ -50,7 +50,7 @@ def moved_before(order):
 
 def run(case_):
     spec = case_['spec']
-    b1 = econ.build(spec)
+    b1 = econ.build(spec, order_seed=None)
     b2 = econ.build(spec, order_seed=case_['keys'])
     labels, feats = c01.classify(spec)
     nt = moved_before(b2.decl_order)
@@ -122,7 +122,7 @@ def run_real(case_):
         sx.AddVariable('LAG_CHAIN_X', 'its lag', 'CHAIN_X(k-1)')
 
     K = spec['horizon']
-    b1 = econ.build(spec, maxtime=K, hooks=hooks)
+    b1 = econ.build(spec, order_seed=None, maxtime=K, hooks=hooks)
     b2 = econ.build(spec, order_seed=case_['keys'], maxtime=K, hooks=hooks)
     labels, feats = c01.classify(spec)
     names = [type(b.error).__name__ if b.error is not None else 'ok' for b in (b1, b2)]
